@@ -1,6 +1,7 @@
 package verifhook
 
 import (
+	"sync"
 	"sync/atomic"
 	"time"
 )
@@ -91,4 +92,54 @@ func (wg *WaitGroup) Wait() {
 	for atomic.LoadInt64(&wg.n) > 0 {
 		Wait(-1)
 	}
+}
+
+// Cond stands in for sync.Cond: Wait yields instead of blocking for real. Signal wakes exactly
+// one waiter (the one waiting longest), Broadcast all current waiters, as the original does.
+type Cond struct {
+	L sync.Locker
+
+	mu     sync.Mutex
+	next   uint64 // ticket of the next waiter
+	served uint64 // waiters with a ticket below this value have been woken
+}
+
+func NewCond(l sync.Locker) *Cond { return &Cond{L: l} }
+
+func (c *Cond) Wait() {
+	c.mu.Lock()
+	t := c.next
+	c.next++
+	c.mu.Unlock()
+	c.L.Unlock()
+	for {
+		c.mu.Lock()
+		woken := c.served > t
+		c.mu.Unlock()
+		if woken {
+			break
+		}
+		Wait(-1)
+	}
+	if tl, ok := c.L.(interface{ TryLock() bool }); ok {
+		for !tl.TryLock() {
+			Wait(-1)
+		}
+	} else {
+		c.L.Lock()
+	}
+}
+
+func (c *Cond) Signal() {
+	c.mu.Lock()
+	if c.served < c.next {
+		c.served++
+	}
+	c.mu.Unlock()
+}
+
+func (c *Cond) Broadcast() {
+	c.mu.Lock()
+	c.served = c.next
+	c.mu.Unlock()
 }
